@@ -36,14 +36,14 @@ def run(ctx):
         nviol += 1
         if nviol <= 8: ctx.violation(msg, w)
     seedterms, seedmeta, qterms, qmeta, mterms, mmeta = [], [], [], [], [], []
-    kinds = ['sir_mf', 'sis_static', 'sir_er_deaths', 'sir_preg', 'hiv_mf_vx', 'measles_day']     # configurations without global-generator users (C01)
+    kinds = ['sir_mf', 'sir_births_people', 'sis_static', 'sir_er_deaths', 'sir_preg', 'hiv_mf_vx', 'measles_day']     # configurations without global-generator users (C01)
     standalone = {}
     def alone(kind, seed):
         if (kind, seed) not in standalone:
             s = make_sim(kind, seed); s.run(); standalone[(kind, seed)] = fingerprint(s, states=False)
         return standalone[(kind, seed)]
     modes = [('serial', dict(parallel=False)), ('parallel-2', dict(parallel=True, n_cpus=2)), ('parallel-1', dict(parallel=True, n_cpus=1)), ('parallel-4', dict(parallel=True, n_cpus=4))]
-    for ci in range(ctx.n(4, 18)):
+    for ci in range(ctx.n(5, 21)):
         kind = kinds[ci % len(kinds)]
         base = rng.randrange(1, 10**5)
         n_runs = [3, 1, 2, 5, 4][ci % 5]
@@ -172,6 +172,19 @@ def run(ctx):
                         mterms.append('([' + '; '.join(qlit(float(v)) for v in raw[t]) + f'], {qlit(float(np.asarray(r2)[t]))})'); mmeta.append(dict(W, key=k, t=t))
         except Exception as E:
             viol(f'{kind}: reduce raised {type(E).__name__}: {E}', W)
+    # seeds given explicitly per replicate (iterpars) are in effect exactly as given: replicate i equals the same sim built with that seed
+    try:
+        kind_ = 'sir_mf'; seeds = [rng.randrange(1, 10**4) for _ in range(3)]
+        runs = ss.multi_run(make_sim(kind_, 1), n_runs=3, iterpars=dict(rand_seed=seeds), parallel=False)
+        ctx.count(('iterpars-seeds', tuple(seeds)), nontrivial=True); ctx.dist('explicit seeds through iterpars')
+        for i, (r, sd) in enumerate(zip(runs, seeds)):
+            if int(r.pars.rand_seed) != sd:
+                viol(f'multi_run(iterpars=dict(rand_seed={seeds})): replicate {i} ran with rand_seed {int(r.pars.rand_seed)}, not the {sd} it was given', dict(probe='iterpars-seeds', replicate=i, seeds=seeds)); break
+            solo = make_sim(kind_, sd); solo.run()
+            dk = diff_keys(fingerprint(solo, states=False), fingerprint(r, states=False))
+            if dk: viol(f'multi_run(iterpars=dict(rand_seed={seeds})): replicate {i} differs from the same sim built with rand_seed={sd} ({dk[0]})', dict(probe='iterpars-seeds', replicate=i, seeds=seeds)); break
+    except Exception as E:
+        viol(f'multi_run with explicit per-replicate seeds raised {type(E).__name__}: {E}', dict(probe='iterpars-seeds'))
     # debug mode
     try:
         ms = ss.MultiSim(make_sim('sis_static', 5), n_runs=2, debug=True, shrink=False); ms.run()
